@@ -290,11 +290,35 @@ def run(ctx) -> None:
         sup = [e for e in p.evs if e.kind == "call" and e.extra.get("func") in ("super().dispatch", "FileSystemEventHandler.dispatch")]
         ign_dir = c.get("self.ignore_directories") is True and c.get("event.is_directory") is True
         anys = [(a, v) for a, v in c.items() if a.startswith("any(") or a.split("(")[0] in exists_preds]
+        # the same search written out as nested loops that leave at the first match:
+        #     for r in self.<regexes>: for p in paths: if r.match(p): <leave>
+        # on a path it has found a match iff its last iteration is spliced in (final_iter) and ends in a positive .match() test
+        inline_plist = None
+        for i_, e_ in enumerate(p.evs):
+            if e_.kind == "loop" and e_.text in ("self.ignore_regexes", "self.regexes", "self._ignore_regexes", "self._regexes"):
+                inner_ok = all(any(x.kind == "loop" for x in b.evs) for b in e_.extra["paths"]) and bool(e_.extra["paths"])
+                inner = next((x for b in e_.extra["paths"] for x in b.evs if x.kind == "loop"), None)
+                if not inner_ok or inner is None:
+                    continue
+                bodies = inner.extra["paths"]
+                # every iteration tests exactly <regex elem>.match(<path elem>) and leaves iff it is true
+                shape = all(
+                    [(x.text, x.extra.get("truth")) for x in b.evs if x.kind == "cond"] in ([(f"$elem({e_.text}).match($elem({inner.text}))", True)], [(f"$elem({e_.text}).match($elem({inner.text}))", False)])
+                    and ((b.outcome is NORMAL or b.outcome == ("continue",)) == ([x.extra.get("truth") for x in b.evs if x.kind == "cond"] == [False]))
+                    for b in bodies
+                )
+                if not shape:
+                    continue
+                later = p.evs[i_ + 1 :]
+                fin = [k for k, x in enumerate(later) if x.kind == "final_iter" and x.text == e_.text]
+                matched = bool(fin) and any(x.kind == "cond" and ".match(" in x.text and x.extra.get("truth") is True for x in later[fin[0] :])
+                anys.append((f"any(<search loop over {e_.text.replace('self._', 'self.')} x {inner.text}>)", matched))
+                inline_plist = inner.text
         if not ign_dir:
             rcalls = [e for e in p.evs if e.kind == "call"]
             # the list the regexes are matched against: the iterable named in the any(...) tests / the helper's path argument
             m_ = re.search(r" for \w+ in (\w+)\)+$", anys[0][0]) if anys else None
-            plist = m_.group(1) if m_ else "paths"
+            plist = m_.group(1) if m_ else (inline_plist or "paths")
             if anys and anys[0][0].split("(")[0] in exists_preds:
                 try:
                     _c = ast.parse(anys[0][0], mode="eval").body
@@ -398,11 +422,30 @@ def run(ctx) -> None:
     okf, msgs = True, []
     for p in ps:
         loops = [e for e in p.evs if e.kind == "loop"]
-        if len(loops) != 1 or loops[0].text != "paths":
+        # the functional spelling:  yield from filter(partial(_match_path, included_patterns=I, excluded_patterns=E, case_sensitive=C), paths)
+        yf = [e for e in p.evs if e.kind == "yield_from"]
+        if not loops and len(yf) == 1:
+            t = yf[0].extra.get("term")
+            t = t.value if isinstance(t, ast.YieldFrom) else t
+            good = False
+            if isinstance(t, ast.Call) and ast.unparse(t.func) == "filter" and len(t.args) == 2 and ast.unparse(t.args[1]) == "paths":
+                f0 = t.args[0]
+                if isinstance(f0, ast.Call) and ast.unparse(f0.func) in ("partial", "functools.partial") and f0.args and ast.unparse(f0.args[0]) == "_match_path":
+                    kw = {k.arg: k.value for k in f0.keywords}
+                    rest = [ast.unparse(a) for a in f0.args[1:]]
+                    if not rest and set(kw) == {"included_patterns", "excluded_patterns", "case_sensitive"} and ast.unparse(kw["case_sensitive"]) == "case_sensitive":
+                        good = True
+                        functional = (kw["included_patterns"], kw["excluded_patterns"])
+            if not good:
+                okf = False
+                msgs.append(f"filter_paths yields from `{yf[0].text[:80]}`: not filter(partial(_match_path, <the three options>), paths)")
+                continue
+            loops = []
+        elif len(loops) != 1 or loops[0].text != "paths":
             okf = False
             msgs.append("filter_paths does not iterate its input exactly once, in order")
             continue
-        for b in loops[0].extra["paths"]:
+        for b in (loops[0].extra["paths"] if loops else []):
             ys = [e for e in b.evs if e.kind == "yield"]
             m = [v for a, v in b.conds().items() if a.startswith("_match_path(")]
             if any(y.text != "$elem(paths)" for y in ys):
@@ -422,6 +465,14 @@ def run(ctx) -> None:
             a1, a2 = mcalls[0].node.args[1], mcalls[0].node.args[2]
             inc_name = a1.id if isinstance(a1, ast.Name) else None
             exc_name = a2.id if isinstance(a2, ast.Name) else None
+        elif not loops:
+            # functional spelling: the raw keyword arguments of the partial (the locals that hold the include / exclude sets)
+            for n in ast.walk(fp.node):
+                if isinstance(n, ast.Call) and ast.unparse(n.func) in ("partial", "functools.partial"):
+                    kw0 = {k.arg: k.value for k in n.keywords}
+                    a1, a2 = kw0.get("included_patterns"), kw0.get("excluded_patterns")
+                    inc_name = a1.id if isinstance(a1, ast.Name) else None
+                    exc_name = a2.id if isinstance(a2, ast.Name) else None
         it = asg.get(inc_name, "") or "="
         et = asg.get(exc_name, "") or "="
         if inc is None or exc is None:
@@ -440,32 +491,55 @@ def run(ctx) -> None:
             okf = False
             msgs.append("given exclude patterns not used")
     ctx.check(okf, RO, "patterns.filter_paths", "; ".join(sorted(set(msgs))), fp.loc)
-    ps = en.run(mp)
+    from ..model import boolified
+
+    ps = en.run(boolified(mp))
     okm, msgs = True, []
     for p in ps:
         c = p.conds()
         common = [v for a, v in c.items() if "&" in a or "common" in a]
+        inc = next((v for a, v in c.items() if a.startswith("any(") and "included_patterns" in a and ".match(" in a), None)
+        exc = next((v for a, v in c.items() if a.startswith("any(") and "excluded_patterns" in a and ".match(" in a), None)
         if common and common[0]:
             if p.outcome[0] != "raise" or "ValueError" not in str(p.outcome[1]):
                 okm = False
                 msgs.append("a pattern both included and excluded is not rejected with ValueError")
         else:
-            if p.outcome[0] != "return":
+            if p.outcome[0] != "return" or not isinstance(p.outcome[1], ast.Constant):
                 okm = False
-                msgs.append("_match_path does not return on the non-conflicting path")
+                msgs.append("_match_path does not return a truth value on the non-conflicting path")
                 continue
-            rt = ast.unparse(p.outcome[1])
-            if not re.search(r"any\(.*included_patterns.*\) and \(?not any\(.*excluded_patterns.*\)", rt):
+            if not common:
                 okm = False
-                msgs.append(f"match rule is `{rt[:100]}`, expected include-any and not exclude-any")
+                msgs.append("a result is returned before the included/excluded conflict has been checked")
+            res = bool(p.outcome[1].value)
+            # the result is  include-any and not exclude-any  (either operand may stay undecided when the other settles it)
+            want = None
+            if inc is False or exc is True:
+                want = False
+            elif inc is True and exc is False:
+                want = True
+            if want is None or res != want:
+                okm = False
+                msgs.append(f"match rule returns {res} with include-any={inc}, exclude-any={exc}; expected include-any and not exclude-any")
         cs = c.get("case_sensitive")
-        asg = {e.extra.get("name"): e.text for e in p.evs if e.kind == "assign"}
-        if cs is True and "PurePosixPath" not in asg.get("path", ""):
-            okm = False
-            msgs.append("case-sensitive matching does not use PurePosixPath")
-        if cs is False and ("PureWindowsPath" not in asg.get("path", "") or ".lower()" not in asg.get("included_patterns", "") or ".lower()" not in asg.get("excluded_patterns", "")):
-            okm = False
-            msgs.append("case-insensitive matching does not fold patterns / use PureWindowsPath")
+        # what the patterns are matched against, and with which folding: read from the decided any(...) atoms themselves
+        anyt = " ".join(a for a in c if a.startswith("any(") and ".match(" in a)
+        if anyt:
+            # the sets the atoms iterate are containers (kept by name): their folding is read from the assignments on the path
+            setnames = set(re.findall(r" for \w+ in (\w+)\)", anyt))
+            asg = {e.extra.get("name"): e.text for e in p.evs if e.kind == "assign"}
+            folded = [n for n in setnames if ".lower()" in asg.get(n, "")]
+            anyt = anyt + "".join(" .lower()" for _ in folded)
+            if cs is True and ("PurePosixPath(raw_path)" not in anyt or ".lower()" in anyt):
+                okm = False
+                msgs.append("case-sensitive matching does not use PurePosixPath on the patterns as given")
+            if cs is False and ("PureWindowsPath(raw_path)" not in anyt or anyt.count(".lower()") < (1 if exc is None else 2)):
+                okm = False
+                msgs.append("case-insensitive matching does not fold patterns / use PureWindowsPath")
+            if cs is None:
+                okm = False
+                msgs.append("case_sensitive is not consulted")
     if not any(p.outcome[0] == "raise" and "ValueError" in str(p.outcome[1]) for p in ps):
         okm = False
         msgs.append("no path rejects a pattern that is both included and excluded (ValueError)")
